@@ -214,8 +214,10 @@ def parse_products_from_task_function(
                 )
                 raise ValueError(msg)
 
-            value = kwargs.get(parameter_name) or parameters_with_node_annot.get(
-                parameter_name
+            value = (
+                kwargs[parameter_name]
+                if parameter_name in kwargs
+                else parameters_with_node_annot.get(parameter_name)
             )
             collected_products = _collect_nodes_and_provisional_nodes(
                 _collect_product,
